@@ -12,7 +12,10 @@ def add_after_statements(mappings):
             # PersonContacts are not real
             if target_table == "PersonContact":
                 continue
-            target_mapping_index = indexed_by_sobject[target_table]
+            target_mapping_index = indexed_by_sobject.get(target_table)
+            # tables without a load step (e.g. hidden `__` tables) cannot be waited for
+            if target_mapping_index is None:
+                continue
             if target_mapping_index.first_instance >= idx:
                 if not lookup.get("after"):
                     lookup["after"] = target_mapping_index.last_step_name
